@@ -418,6 +418,11 @@ func (a *AggregatePlan) batch(ctx *ExecuteCtx) ([][]Column, error) {
 	for count < PlanBatchSize {
 		aggrRow := a.aggrRows[a.pos]
 		a.pos++
+		// Field results cached for the last scanned pair must not be used for
+		// the expressions around the aggregates, evaluated on an empty pair
+		if ctx != nil {
+			ctx.Clear()
+		}
 		row := make([]Column, len(a.aggrFields))
 		for i, col := range aggrRow {
 			if col.IsKey {
@@ -486,6 +491,11 @@ func (a *AggregatePlan) next(ctx *ExecuteCtx) ([]Column, error) {
 	}
 	aggrRow := a.aggrRows[a.pos]
 	a.pos++
+	// Field results cached for the last scanned pair must not be used for
+	// the expressions around the aggregates, evaluated on an empty pair
+	if ctx != nil {
+		ctx.Clear()
+	}
 	row := make([]Column, len(a.aggrFields))
 	for i, col := range aggrRow {
 		if col.IsKey {
